@@ -432,6 +432,70 @@ def unknown_cases(draw):
 TEXT_TYPES = [t for t in R.ALL_TYPES if t not in ("OPT",)]
 
 
+
+# ---------------------------------------------------------------------------
+# name-length limit through the text path: a relative name in a record's text only reaches its full
+# length when the origin is appended
+
+_NAME_FORMS = [
+    ("NS", "{n}"), ("CNAME", "{n}"), ("PTR", "{n}"), ("DNAME", "{n}"), ("MX", "10 {n}"), ("KX", "10 {n}"),
+    ("RT", "10 {n}"), ("AFSDB", "1 {n}"), ("LP", "10 {n}"), ("SRV", "1 2 3 {n}"), ("RP", "{n} {m}"), ("RP", "{m} {n}"),
+    ("SOA", "{n} {m} 1 2 3 4 5"), ("SOA", "{m} {n} 1 2 3 4 5"), ("NSEC", "{n} A NS"), ("PX", "1 {n} {m}"), ("PX", "1 {m} {n}"),
+    ("RRSIG", "A 8 2 300 20200101000000 20190101000000 1 {n} AQID"), ("SVCB", "1 {n}"), ("HTTPS", "0 {n}"),
+    ("NAPTR", '1 1 "" "" "" {n}'), ("DSYNC", "CDS NOTIFY 53 {n}"), ("AMTRELAY", "10 0 3 {n}"), ("IPSECKEY", "10 3 2 {n} AQID"),
+    ("HIP", "2 200100107B1A74DF365639CC39F1D578 AQID {n}"), ("HIP", "2 200100107B1A74DF365639CC39F1D578 AQID {m} {n}"),
+]
+
+
+def run_namelimit(case):
+    import dns.exception
+    import dns.name
+    import dns.rdata
+
+    tname, form = _NAME_FORMS[case["form"]]
+    origin_labels = G.unhexl(case["origin"])
+    origin = dns.name.Name(origin_labels)
+    rel = G.unhexl(case["rel"])
+    full = G.wire_len(rel) + G.wire_len(origin_labels)
+    from vlib.ref import zonefile_writer as ZW
+
+    text = form.format(n=ZW.rel_text(rel), m="m")
+    rdtype = R.TYPECODES[tname]
+    classes = ["full:%d" % full if 253 <= full <= 257 else ("full<253" if full < 253 else "full>257"), "nl:" + tname]
+    try:
+        rd = dns.rdata.from_text(1, rdtype, text, origin=origin, relativize=case["relativize"])
+    except dns.exception.DNSException as e:
+        if full <= 255:
+            raise Violation("namelimit", f"{tname}: text with a name of {full} octets under the origin is refused: {type(e).__name__}: {e}", "refused:" + tname)
+        return {"nontrivial": True, "classes": classes + ["too-long-refused"]}
+    # accepted from text => encodable, printable absolute, and a fixed point
+    try:
+        w = rd.to_wire(origin=origin)
+    except Exception as e:
+        raise Violation("totality", f"{tname}: from_text accepted a name of {full} octets under the origin (relativize={case['relativize']}) but to_wire(origin) raised {type(e).__name__}", "namelimit-to_wire:" + tname)
+    try:
+        rd.to_text(origin=origin, relativize=False)
+        rd.to_text(origin=origin, relativize=True)
+    except Exception as e:
+        raise Violation("totality", f"{tname}: from_text accepted a name of {full} octets under the origin but to_text raised {type(e).__name__}", "namelimit-to_text:" + tname)
+    if full > 255:
+        raise Violation("namelimit", f"{tname}: a name of {full} octets (relative part + origin) was accepted", "accepted-too-long:" + tname)
+    back = dns.rdata.from_wire(1, rdtype, w, 0, len(w), origin if case["relativize"] else None)
+    if back != rd:
+        raise Violation("roundtrip", f"{tname}: record with a {full}-octet name differs after text -> wire -> record", "namelimit-roundtrip:" + tname)
+    return {"nontrivial": full >= 250, "classes": classes + ["accepted"]}
+
+
+@st.composite
+def namelimit_cases(draw):
+    form = draw(st.integers(0, len(_NAME_FORMS) - 1))
+    origin = draw(st.one_of(st.just([b"example", b""]), st.just([b""]), G.abs_name(max_wire=40)))
+    full = draw(st.sampled_from([253, 254, 255, 255, 256, 256, 257, 300, 100]))
+    room = full - G.wire_len(origin)
+    rel = draw(G.long_rel_labels(target=room)) if room >= 2 else [b"a"]
+    return {"form": form, "origin": G.hexl(origin), "rel": G.hexl(rel), "relativize": draw(st.booleans())}
+
+
 def parts(tier):
     per_type = {"quick": 30, "thorough": 300}[tier]
     req = {("acc:" + t): per_type for t in TEXT_TYPES}
@@ -447,4 +511,6 @@ def parts(tier):
              shards={"quick": 8, "thorough": 16}),
         Part("textmut", run_textmut, strategy=textmut_cases(TEXT_TYPES), n={"quick": 300 * n_types, "thorough": 4000 * n_types},
              require={"mut-accepted": 2000, "mut-rejected": 2000}, shards={"quick": 16, "thorough": 16}),
+        Part("namelimit", run_namelimit, strategy=namelimit_cases(), n={"quick": 3000, "thorough": 60000},
+             require={"full:255": 300, "full:256": 300, "accepted": 500, "too-long-refused": 500}, shards={"quick": 4, "thorough": 8}),
     ]
